@@ -638,7 +638,7 @@ def replay(ctx, rec):
         t = run_steps((r["seed"], [tuple(s) for s in r["steps"]], r.get("sn0", 0)))
     rej = ctx.validate_traces("Trace_HSTRP", "Trace_HSTRP.cfg", [t])
     if rej:
-        print(f"VIOLATION property=C17 replay=(given) why={rej[0][2]} step={rej[0][1]}")
+        print(f"VIOLATION property=C17 replay={rec.get('path', '(given)')} why={rej[0][2]} step={rej[0][1]}")
         return 1
     print("replay: property holds on this history")
     return 0
